@@ -212,13 +212,13 @@ Definition fail_ev (m : nat) (e : tev) : list item :=
 Lemma results_cons m e p : results m (e :: p) = res_ev m e ++ results m p.
 Proof.
   unfold results, outcomes. cbn [flat_map]. rewrite flat_map_app. f_equal.
-  destruct e as [| | | | | | n it o | n it o | | |]; cbn; try reflexivity;
+  destruct e as [| | | | | | n it o | n it o | | | |]; cbn; try reflexivity;
     destruct (n =? m); cbn; try reflexivity; destruct o; cbn; rewrite ?app_nil_r; reflexivity.
 Qed.
 Lemma failreps_cons m e p : failreps m (e :: p) = fail_ev m e ++ failreps m p.
 Proof.
   unfold failreps, outcomes. cbn [flat_map]. rewrite flat_map_app. f_equal.
-  destruct e as [| | | | | | n it o | n it o | | |]; cbn; try reflexivity;
+  destruct e as [| | | | | | n it o | n it o | | | |]; cbn; try reflexivity;
     destruct (n =? m); cbn; try reflexivity; destruct o; cbn; reflexivity.
 Qed.
 Lemma emitted_cons e p :
@@ -233,7 +233,7 @@ Proof.
   unfold produced in *. cbn [sumf]. rewrite IH, emitted_cons, count_item_app. f_equal.
   assert (R1 : cnt_nat c (roots nt) = 1).
   { pose proof (wf_total nt c Hwf). lia. }
-  destruct e as [| | | | v | | n it o | n it o | | |]; cbn [produced_by]; try reflexivity.
+  destruct e as [| | | | v | | n it o | n it o | | | |]; cbn [produced_by]; try reflexivity.
   - rewrite R1. cbn. rewrite (item_eqb_sym x). destruct (item_eqb (v, 0%Z) x); reflexivity.
   - rewrite deliveries_entitled. pose proof (wf_root_no_feeder nt c n Hwf Hr) as Z. rewrite tcount_split in Z.
     destruct o as [es|err|]; cbn [entitled]; [|destruct (handler_is nt n c); [lia|reflexivity]|reflexivity].
@@ -264,7 +264,7 @@ Proof.
     - rewrite Nat.eqb_refl. destruct o as [es|err|]; cbn [entitled]; [rewrite K1; lia|rewrite K2; reflexivity|reflexivity].
     - destruct (Oth n Hn) as [O1 O2]. apply Nat.eqb_neq in Hn. rewrite Hn.
       destruct o as [es|err|]; cbn [entitled]; [rewrite O1; reflexivity|rewrite O2; reflexivity|reflexivity]. }
-  destruct e as [| | | | v | | n it o | n it o | | |]; cbn [produced_by res_ev]; try reflexivity.
+  destruct e as [| | | | v | | n it o | n it o | | | |]; cbn [produced_by res_ev]; try reflexivity.
   - rewrite R0. destruct (item_eqb (v, 0%Z) x); reflexivity.
   - rewrite deliveries_entitled, EV. destruct o; reflexivity.
   - rewrite deliveries_entitled, EV. destruct o; reflexivity.
@@ -290,7 +290,7 @@ Proof.
       rewrite Hh. cbn. destruct (item_eqb x (fst it, err)); reflexivity.
     - destruct (Oth n Hn) as [O1 O2]. apply Nat.eqb_neq in Hn. rewrite Hn.
       destruct o as [es|err|]; cbn [entitled]; [rewrite O1; reflexivity|rewrite O2; reflexivity|reflexivity]. }
-  destruct e as [| | | | v | | n it o | n it o | | |]; cbn [produced_by fail_ev]; try reflexivity.
+  destruct e as [| | | | v | | n it o | n it o | | | |]; cbn [produced_by fail_ev]; try reflexivity.
   - rewrite R0. destruct (item_eqb (v, 0%Z) x); reflexivity.
   - rewrite deliveries_entitled, EV. destruct o; reflexivity.
   - rewrite deliveries_entitled, EV. destruct o; reflexivity.
@@ -305,7 +305,7 @@ Proof.
   { intros n it o. specialize (Hn n). rewrite tcount_split in Hn.
     destruct o as [es|err|]; cbn [entitled]; [|destruct (handler_is nt n c); [lia|reflexivity]|reflexivity].
     replace (cnt_nat c (nkids (info nt n))) with 0 by lia. reflexivity. }
-  destruct e as [| | | | v | | n it o | n it o | | |]; cbn [produced_by]; try reflexivity.
+  destruct e as [| | | | v | | n it o | n it o | | | |]; cbn [produced_by]; try reflexivity.
   - rewrite R0. destruct (item_eqb (v, 0%Z) x); reflexivity.
   - rewrite deliveries_entitled, EV; reflexivity.
   - rewrite deliveries_entitled, EV; reflexivity.
